@@ -42,13 +42,21 @@ Inductive top :=
 | TCreate (t : nat) (d : nat) (v : Z) (ok : bool)
 | TDelete (t : nat) (d : nat) (ok : bool)
 | TCommit (t : nat) (ok : bool)
-| TDiscard (t : nat).
+| TDiscard (t : nat)
+| TList (t : nat) (obs : list nat).                       (* listing of the documents of the collection *)
+
+(* the documents a transaction's listing shows: those that exist in its view (snapshot overlaid with its own writes) *)
+Fixpoint ins_nat (x : nat) (l : list nat) : list nat :=
+  match l with [] => [x] | y :: r => if Nat.leb x y then x :: l else y :: ins_nat x r end.
+Fixpoint keys_of (m : dmap) (seen : list nat) : list nat :=
+  match m with
+  | [] => []
+  | (d, _) :: r => if existsb (Nat.eqb d) seen then keys_of r seen else d :: keys_of r (d :: seen)
+  end.
 
 Definition dummy_tx : tx := mkTx [] 0 [] [] false.
 Definition gettx (s : mv) (t : nat) : tx := match tlook t (m_txs s) with Some x => x | None => dummy_tx end.
 Definition settx (s : mv) (t : nat) (x : tx) : mv := mkMv (m_cur s) (m_ver s) (m_clock s) (tput t x (m_txs s)).
-
-Definition is_some (v : value) : bool := match v with Some _ => true | None => false end.
 
 (* conflict: the transaction has writes and a document it touched has a committed version newer than its start *)
 Definition conflicts (s : mv) (x : tx) : bool :=
@@ -63,7 +71,11 @@ Definition commit_tx (s : mv) (t : nat) (x : tx) : mv :=
        (tput t (mkTx (t_snap x) (t_start x) (t_reads x) (t_writes x) false) (m_txs s)).
 
 (* the model step returns the predicted observable: the value read / whether the operation or commit succeeds *)
-Inductive pred := PNone | PVal (v : value) | POk (b : bool).
+Inductive pred := PNone | PVal (v : value) | POk (b : bool) | PList (l : list nat).
+
+Definition is_some (v : value) : bool := match v with Some _ => true | None => false end.
+Definition view_docs (x : tx) : list nat :=
+  fold_right ins_nat [] (filter (fun d => is_some (tview x d)) (keys_of (t_writes x ++ t_snap x) [])).
 
 Definition mstep (s : mv) (o : top) : mv * pred :=
   match o with
@@ -86,6 +98,7 @@ Definition mstep (s : mv) (o : top) : mv * pred :=
       else (commit_tx s t x, POk true)
   | TDiscard t => let x := gettx s t in
       (settx s t (mkTx (t_snap x) (t_start x) (t_reads x) (t_writes x) false), PNone)
+  | TList t _ => (s, PList (view_docs (gettx s t)))
   end.
 
 Definition minit (init : dmap) : mv := mkMv init [] 0 [].
